@@ -170,6 +170,69 @@ def _gen_core(rng, tier):
         yield Case("entropy", [1, rows_str(rows), 0, 0, 300], True, "entropy-many-classes")
 
 
+def _gen_aa(rng, tier):
+    """codon-wise mutation list (`refmutsaa`): a reference made of codons (stop codons, IUPAC codes, lower case, U) with
+    gap runs of 1..7 columns in front of, inside, between and behind them; the query repeats it with substitutions,
+    residues facing the reference gaps (whole codons, or a number that is not a multiple of 3), deleted codons and
+    partial deletions; lengths that are not a multiple of 3; rarely a character that is no nucleotide code, another
+    alphabet, different lengths (errors)"""
+    N = 120 if tier == "quick" else 4000
+    codons = ["ATG", "TAA", "TAG", "TGA", "GCN", "gcr", "CTN", "YTA", "MGR", "AUG", "TTY", "RAY", "NNN", "AAA", "cgt", "TCA", "GGG", "ATH"]
+    for _ in range(N):
+        rf, q = [], []
+
+        def gaprun():
+            g = rng.choice([1, 2, 3, 3, 4, 5, 6, 7])
+            k = rng.random()
+            rf.extend("-" * g)
+            if k < 0.3:
+                q.extend("-" * g)
+            elif k < 0.6:
+                q.extend(rng.choice("ACGTacgtNR") for _ in range(g))
+            else:
+                q.extend(rng.choice("ACGT--") for _ in range(g))
+        if rng.random() < 0.4:
+            gaprun()
+        for _c in range(rng.randint(0, 6)):
+            cd = rng.choice(codons) if rng.random() < 0.7 else "".join(rng.choice("ACGT") for _ in range(3))
+            for j, ch in enumerate(cd):
+                rf.append(ch)
+                k = rng.random()
+                q.append(ch if k < 0.6 else rng.choice("ACGTacgtNRYKM") if k < 0.85 else "-")
+                if j < 2 and rng.random() < 0.15:
+                    gaprun()
+            k = rng.random()
+            if k < 0.12:
+                q[-3:] = "---"
+            elif k < 0.2:
+                q[-3:] = rng.choice(["TAA", "TGA", "tag", "TAR", "TRA"])
+            if rng.random() < 0.35:
+                gaprun()
+        for _c in range(rng.choice([0, 0, 1, 2])):
+            rf.append(rng.choice("ACGT"))
+            q.append(rng.choice("ACGT-"))
+            if rng.random() < 0.3:
+                gaprun()
+        if not rf:
+            rf, q = ["-"], [rng.choice("A-")]
+        if rng.random() < 0.05:
+            j = rng.randrange(len(rf))
+            (rf if rng.random() < 0.5 else q)[j] = rng.choice("EF?*.X!")
+        alpha = 1
+        k = rng.random()
+        if k < 0.03:
+            alpha = rng.choice([0, 2, 3])
+        elif k < 0.06:
+            q = q[:-1] if len(q) > 1 and rng.random() < 0.5 else q + ["A"]
+        rfs, qs = "".join(rf), "".join(q)
+        yield Case("refmutsaa", [alpha, qs, rfs], "-" in rfs and any(c != "-" for c in rfs), "refmutsaa")
+    # plain random pairs (the same strata as `refmuts`)
+    for _ in range(N // 3):
+        L = rng.randint(1, 16)
+        sym = rng.choice(["ACGT-", "ACGT---", NT, "ACGTRYN-acgt"])
+        yield Case("refmutsaa", [1, "".join(rng.choice(sym) for _ in range(L)), "".join(rng.choice(sym) for _ in range(L))], L >= 3, "refmutsaa-random")
+
+
 def _fl(tok):
     f = tok.split(":")
     return struct.unpack(">d", bytes.fromhex(f[1]))[0]
@@ -205,10 +268,10 @@ def matches(c):
 
 def shrink(c):
     a = list(c.args)
-    if c.op == "refmuts":
+    if c.op in ("refmuts", "refmutsaa"):
         for j in range(len(a[1])):
             if len(a[1]) > 1:
-                yield Case("refmuts", [a[0], a[1][:j] + a[1][j + 1:], a[2][:j] + a[2][j + 1:]])
+                yield Case(c.op, [a[0], a[1][:j] + a[1][j + 1:], a[2][:j] + a[2][j + 1:]])
         return
     if c.op == "compat":
         return
@@ -285,6 +348,8 @@ def gen(rng, tier):
         yield c
     from driver import multigen
     for c in _gen_core(rng, tier):
+        yield c
+    for c in _gen_aa(rng, tier):
         yield c
     from driver import cligen
     for c in cligen.cases(rng, ['consensus', 'entropy', 'stats', 'gapstats', 'mutstats', 'charstats', 'alleles', 'alphabet'], 40 if tier == "quick" else 400):
